@@ -356,6 +356,10 @@ pub struct WorkerArgs {
     pub max_cases: u64,
     pub checkpoint_every: u64,
     pub dir: PathBuf,
+    /// first case index of this worker (worker, or where a crashed predecessor stopped)
+    pub start: u64,
+    /// incarnation number of this worker slot (a slot is respawned after a crash)
+    pub part: u32,
 }
 
 pub fn run_worker(check: &dyn Check, a: &WorkerArgs) -> i32 {
@@ -371,16 +375,29 @@ pub fn run_worker(check: &dyn Check, a: &WorkerArgs) -> i32 {
     let mut sigs: HashSet<u64> = HashSet::new();
     let mut fps: HashSet<u64> = HashSet::new();
     let ckpt = a.dir.join(format!("w{}.ckpt", a.worker));
-    let mut idx = a.worker;
+    let mut idx = a.start;
     let mut n = 0u64;
     let mut complete = true;
+    let tag = format!("w{}.p{}", a.worker, a.part);
+    let mut last_flush = Instant::now();
     while idx < limit {
+        // partial results survive a crash of this process
+        if last_flush.elapsed() > Duration::from_secs(2) {
+            last_flush = Instant::now();
+            let _ = std::fs::write(a.dir.join(format!("{tag}.json")), serde_json::to_vec(&rep).unwrap());
+        }
         if n % 16 == 0 && start.elapsed() > deadline {
             complete = false;
             break;
         }
         if a.checkpoint_every > 0 && n % a.checkpoint_every == 0 {
             let _ = std::fs::write(&ckpt, idx.to_string());
+        }
+        if let Ok(v) = std::env::var("DCSIM_TEST_ABORT_AT") {
+            // self-test of the crash supervision only
+            if v.parse::<u64>().ok() == Some(idx) {
+                std::process::abort();
+            }
         }
         let sc = check.generate(a.seed, idx, a.tier);
         let out = execute_guarded(check, &sc);
@@ -440,16 +457,13 @@ pub fn run_worker(check: &dyn Check, a: &WorkerArgs) -> i32 {
     for s in &sigs {
         buf.extend_from_slice(&s.to_le_bytes());
     }
-    let _ = std::fs::write(a.dir.join(format!("w{}.sigs", a.worker)), &buf);
+    let _ = std::fs::write(a.dir.join(format!("{tag}.sigs")), &buf);
     let mut buf = Vec::with_capacity(fps.len() * 8);
     for s in &fps {
         buf.extend_from_slice(&s.to_le_bytes());
     }
-    let _ = std::fs::write(a.dir.join(format!("w{}.fps", a.worker)), &buf);
-    let _ = std::fs::write(
-        a.dir.join(format!("w{}.json", a.worker)),
-        serde_json::to_vec(&rep).unwrap(),
-    );
+    let _ = std::fs::write(a.dir.join(format!("{tag}.fps")), &buf);
+    let _ = std::fs::write(a.dir.join(format!("{tag}.json")), serde_json::to_vec(&rep).unwrap());
     0
 }
 
@@ -623,30 +637,62 @@ pub fn run_check(check: &dyn Check, tier: Tier, seed: u64) -> i32 {
     );
 
     let exe = std::env::current_exe().unwrap();
-    let mut children = Vec::new();
+    // one supervising thread per worker slot: a worker that dies on a signal is replaced by a
+    // fresh process that continues behind the killing case
+    let mut slots = Vec::new();
     for w in 0..budget.workers {
-        let child = Command::new(&exe)
-            .arg("worker")
-            .arg(check.id())
-            .arg(tier.name())
-            .arg(seed.to_string())
-            .arg(w.to_string())
-            .arg(budget.workers.to_string())
-            .arg(budget.wall_secs.to_string())
-            .arg(budget.max_cases.to_string())
-            .arg(budget.checkpoint_every.to_string())
-            .arg(&scratch)
-            .stdout(Stdio::null())
-            .stderr(Stdio::null())
-            .spawn()
-            .expect("spawn worker");
-        children.push(child);
+        let (exe, scratch, id, tname) = (exe.clone(), scratch.clone(), check.id().to_string(), tier.name().to_string());
+        let b = budget;
+        slots.push(std::thread::spawn(move || {
+            let begun = Instant::now();
+            let mut died: Vec<(u64, String)> = Vec::new();
+            let mut start_idx = w as u64;
+            let mut part = 0u32;
+            loop {
+                let left = b.wall_secs.saturating_sub(begun.elapsed().as_secs());
+                let st = Command::new(&exe)
+                    .arg("worker")
+                    .arg(&id)
+                    .arg(&tname)
+                    .arg(seed.to_string())
+                    .arg(w.to_string())
+                    .arg(b.workers.to_string())
+                    .arg(left.max(1).to_string())
+                    .arg(b.max_cases.to_string())
+                    .arg(b.checkpoint_every.to_string())
+                    .arg(&scratch)
+                    .arg(start_idx.to_string())
+                    .arg(part.to_string())
+                    .stdout(Stdio::null())
+                    .stderr(Stdio::null())
+                    .status();
+                match st {
+                    Ok(st) if st.success() => break,
+                    Ok(st) => {
+                        let at = std::fs::read_to_string(scratch.join(format!("w{w}.ckpt"))).ok().and_then(|s| s.trim().parse::<u64>().ok()).unwrap_or(start_idx);
+                        died.push((at, format!("{st}")));
+                        if part >= 20 || left <= 1 {
+                            break;
+                        }
+                        // continue behind the checkpoint window that contains the killing case
+                        start_idx = at + b.checkpoint_every.max(1) * b.workers as u64;
+                        part += 1;
+                    },
+                    Err(e) => {
+                        died.push((start_idx, format!("spawn failed: {e}")));
+                        break;
+                    },
+                }
+            }
+            (w, died)
+        }));
     }
-    let mut died: Vec<(usize, String)> = Vec::new();
-    for (w, mut c) in children.into_iter().enumerate() {
-        let st = c.wait().expect("wait worker");
-        if !st.success() {
-            died.push((w, format!("{st}")));
+    let mut died: Vec<(usize, u64, String)> = Vec::new();
+    for h in slots {
+        if let Ok((w, d)) = h.join() {
+            for (at, st) in d {
+                died.push((w, at, st));
+            }
         }
     }
     let search_wall = start.elapsed().as_secs_f64();
@@ -657,10 +703,25 @@ pub fn run_check(check: &dyn Check, tier: Tier, seed: u64) -> i32 {
     let mut fps = HashSet::new();
     let mut complete = true;
     let mut harness_errors: Vec<String> = Vec::new();
-    for w in 0..budget.workers {
-        let p = scratch.join(format!("w{w}.json"));
-        match std::fs::read(&p).ok().and_then(|b| serde_json::from_slice::<WorkerReport>(&b).ok()) {
+    let mut part_files: Vec<PathBuf> = std::fs::read_dir(&scratch).map(|rd| rd.filter_map(|e| e.ok().map(|e| e.path())).collect()).unwrap_or_default();
+    part_files.sort();
+    let mut reported_slots: BTreeSet<String> = BTreeSet::new();
+    for p in &part_files {
+        let name = p.file_name().and_then(|n| n.to_str()).unwrap_or("").to_string();
+        if name.ends_with(".sigs") {
+            read_u64s(p, &mut sigs);
+            continue;
+        }
+        if name.ends_with(".fps") {
+            read_u64s(p, &mut fps);
+            continue;
+        }
+        if !name.ends_with(".json") {
+            continue;
+        }
+        match std::fs::read(p).ok().and_then(|b| serde_json::from_slice::<WorkerReport>(&b).ok()) {
             Some(r) => {
+                reported_slots.insert(name.split('.').next().unwrap_or("").to_string());
                 agg.evaluations += r.evaluations;
                 agg.nontrivial += r.nontrivial;
                 agg.sim_ms += r.sim_ms;
@@ -687,20 +748,20 @@ pub fn run_check(check: &dyn Check, tier: Tier, seed: u64) -> i32 {
             },
             None => complete = false,
         }
-        read_u64s(&scratch.join(format!("w{w}.sigs")), &mut sigs);
-        read_u64s(&scratch.join(format!("w{w}.fps")), &mut fps);
+    }
+    if reported_slots.len() < budget.workers {
+        complete = false;
+    }
+    if !died.is_empty() {
+        complete = false;
     }
 
     // a worker that died on a signal: find the case that killed it
-    for (w, st) in &died {
-        let from = std::fs::read_to_string(scratch.join(format!("w{w}.ckpt")))
-            .ok()
-            .and_then(|s| s.trim().parse::<u64>().ok())
-            .unwrap_or(*w as u64);
+    for (w, from, st) in &died {
         let mut found = false;
-        let mut idx = from;
+        let mut idx = *from;
         let span = budget.checkpoint_every.max(1) * budget.workers as u64;
-        while idx <= from + span {
+        while idx < from + span {
             let sc = check.generate(seed, idx, tier);
             if let Ok(o) = exec_isolated(check.id(), &sc) {
                 if let Some(v) = o.violations.iter().find(|v| v.class.ends_with("/process-died")) {
@@ -714,7 +775,7 @@ pub fn run_check(check: &dyn Check, tier: Tier, seed: u64) -> i32 {
             idx += budget.workers as u64;
         }
         if !found {
-            harness_errors.push(format!("worker {w} died ({st}) and the killing case could not be re-found from idx {from}"));
+            harness_errors.push(format!("worker {w} died ({st}) near case idx {from} and no single case of that window reproduces the death in a fresh process"));
         }
     }
 
